@@ -165,12 +165,12 @@ func genKeys(g *core.Gen) {
 			id = ns[r.Intn(len(ns))].p.PrivateKeyID
 		}
 		c := strconv.Itoa(r.Intn(2))
-		g.Case("wife", true, "C16 wife "+hx([]byte{id})+" "+c+" "+hx(key))
+		gc(g, "wife", true, "C16 wife "+hx([]byte{id})+" "+c+" "+hx(key))
 		priv, _ := btcec.PrivKeyFromBytes(key)
 		w, _ := btcutil.NewWIF(priv, &chaincfg.Params{PrivateKeyID: id}, c == "1")
 		s := []byte(w.String())
-		g.Case("wifd-valid", true, "C16 wifd "+hx(s))
-		g.Case("wifd-mut", true, "C16 wifd "+hx(mutate(r, s, 1+r.Intn(4), b58alpha)))
+		gc(g, "wifd-valid", true, "C16 wifd "+hx(s))
+		gc(g, "wifd-mut", true, "C16 wifd "+hx(mutate(r, s, 1+r.Intn(4), b58alpha)))
 	}
 	// WIF with raw payloads: zero key, key = n, n-1, n+1, wrong compress byte, wrong lengths (checksum valid)
 	mk := func(body []byte) []byte { return []byte(base58CheckRaw(body)) }
@@ -181,11 +181,11 @@ func genKeys(g *core.Gen) {
 	for _, key := range [][]byte{make([]byte, 32), secpNBytes, nm1, np1, {31: 1}} {
 		for _, tail := range [][]byte{nil, {1}, {0}, {2}, {1, 1}} {
 			body := append(append([]byte{0x80}, key...), tail...)
-			g.Case("wifd-edge", true, "C16 wifd "+hx(mk(body)))
+			gc(g, "wifd-edge", true, "C16 wifd "+hx(mk(body)))
 		}
 	}
 	for _, l := range []int{0, 1, 31, 32, 33, 34, 35, 36, 40} {
-		g.Case("wifd-len", true, "C16 wifd "+hx(mk(r.Bytes(l))))
+		gc(g, "wifd-len", true, "C16 wifd "+hx(mk(r.Bytes(l))))
 	}
 	// extended keys: encode with arbitrary fields; decode valid / mutated / edge keys
 	for k := 0; k < g.N(200, 3000); k++ {
@@ -217,20 +217,20 @@ func genKeys(g *core.Gen) {
 		}
 		line := "C16 xke " + hx(ver) + " " + strconv.Itoa(depth) + " " + hx(r.Bytes(4)) + " " +
 			strconv.FormatUint(uint64(cn), 10) + " " + hx(r.Bytes(32)) + " " + p + " " + hx(key)
-		g.Case("xke", true, line)
+		gc(g, "xke", true, line)
 		ek := hdkeychain.NewExtendedKey(ver, key, r.Bytes(32), r.Bytes(4), uint8(depth), cn, priv)
 		s := []byte(ek.String())
-		g.Case("xkd-valid", true, "C16 xkd "+hx(s))
-		g.Case("xkd-mut", true, "C16 xkd "+hx(mutate(r, s, 1+r.Intn(4), b58alpha)))
+		gc(g, "xkd-valid", true, "C16 xkd "+hx(s))
+		gc(g, "xkd-mut", true, "C16 xkd "+hx(mutate(r, s, 1+r.Intn(4), b58alpha)))
 	}
 	for _, kd := range [][]byte{append([]byte{0}, make([]byte, 32)...), append([]byte{0}, secpNBytes...), append([]byte{0}, nm1...),
 		append([]byte{4}, make([]byte, 32)...), append([]byte{2}, make([]byte, 32)...), append([]byte{1}, r.Bytes(32)...),
 		append([]byte{3}, secpNBytes...)} {
 		body := append(append(append([]byte{0x04, 0x88, 0xad, 0xe4, 3}, r.Bytes(4)...), r.Bytes(4+32)...), kd...)
-		g.Case("xkd-edge", true, "C16 xkd "+hx(mk(body)))
+		gc(g, "xkd-edge", true, "C16 xkd "+hx(mk(body)))
 	}
 	for _, l := range []int{0, 77, 78, 79, 81, 82} {
-		g.Case("xkd-len", true, "C16 xkd "+hx(mk(r.Bytes(l))))
+		gc(g, "xkd-len", true, "C16 xkd "+hx(mk(r.Bytes(l))))
 	}
 	// derivation walks: seeds of every legal / illegal length, paths with hardened mix
 	for k := 0; k < g.N(40, 600); k++ {
@@ -256,7 +256,7 @@ func genKeys(g *core.Gen) {
 		if len(path) > 0 {
 			ps = strings.Join(path, ",")
 		}
-		g.Case("drv", depth > 0, "C16 drv "+n.name+" "+hx(seed)+" "+ps)
+		gc(g, "drv", depth > 0, "C16 drv "+n.name+" "+hx(seed)+" "+ps)
 	}
 	// parents whose private key has leading zero bytes (stored stripped by Derive): hardened and normal children
 	found := 0
@@ -273,11 +273,11 @@ func genKeys(g *core.Gen) {
 		}
 		found++
 		for _, j := range []uint32{0x80000000, 0x80000001 + r.U32()&0xffff, 0, 1 + r.U32()&0xffff} {
-			g.Case("drv-shortkey", true, "C16 drv mainnet "+hx(seed)+" "+strconv.FormatUint(uint64(i), 10)+","+
+			gc(g, "drv-shortkey", true, "C16 drv mainnet "+hx(seed)+" "+strconv.FormatUint(uint64(i), 10)+","+
 				strconv.FormatUint(uint64(j), 10)+","+strconv.FormatUint(uint64(r.U32()), 10))
 		}
 	}
-	g.Case("drv-bip32-tv1", true, "C16 drv mainnet 000102030405060708090a0b0c0d0e0f 2147483648,1,2147483650,2,1000000000")
-	g.Case("drv-bip32-tv3", true, "C16 drv mainnet 4b381541583be4423346c643850da4b320e46a87ae3d2a4e6da11eba819cd4acba45d239319ac14f863b8d5ab5a0d0c64d2e8a1e7d1457df2e5a3c51c73235be 2147483648")
+	gc(g, "drv-bip32-tv1", true, "C16 drv mainnet 000102030405060708090a0b0c0d0e0f 2147483648,1,2147483650,2,1000000000")
+	gc(g, "drv-bip32-tv3", true, "C16 drv mainnet 4b381541583be4423346c643850da4b320e46a87ae3d2a4e6da11eba819cd4acba45d239319ac14f863b8d5ab5a0d0c64d2e8a1e7d1457df2e5a3c51c73235be 2147483648")
 	genTap(g)
 }
